@@ -213,6 +213,42 @@ def run(ctx: Ctx, tier: str) -> Result:
                          "an already recorded object is not turned into a back-reference before a new id is issued (hit test %s, stops descent %s): "
                          "shared/cyclic data is recorded repeatedly" % (okc, bool(stops))))
 
+    # every id put into a VariableId is an id of the identity cache (new_var_id / check_id): the only "no entry" value
+    # the readers test for is None
+    vid_cls = p.cls("deep.api.tracepoint.eventsnapshot.VariableId")
+    nvid = 0
+    for f in p.functions.values():
+        if not f.module.name.startswith("deep.processor"):
+            continue
+        for c in t.calls_in(f):
+            if vid_cls not in t.resolve_call(c, f).ctor or not c.args:
+                continue
+            nvid += 1
+            src = ctx.expand.expand(c.args[0], f)
+            okid = bool(src) and all(x == "None" or ".check_id(" in x or ".new_var_id(" in x or x.endswith(".vid") or x.endswith("._vid")
+                                     or ("." + cfield + "[") in x or ("." + cfield + ".get(") in x for x in src)
+            if okid:
+                res.ok("C07.OPTIONAL", {"VariableId id": src[0][:70], "in": f.qname})
+            else:
+                res.fail(Finding("C07.OPTIONAL", f.qname, c, f.loc(c), "a variable reference is built with the id %s, which is neither an id of the identity cache nor None: "
+                                 "readers only recognise None as `not recorded`, so the reference points at no entry" % src))
+    res.floor("VariableId constructions in the collector", nvid, 4)
+    # a table entry starts with a list of its own for its children
+    var_cls = p.cls("deep.api.tracepoint.eventsnapshot.Variable")
+    for f in p.functions.values():
+        if not f.module.name.startswith("deep.processor"):
+            continue
+        for c in t.calls_in(f):
+            if var_cls not in t.resolve_call(c, f).ctor:
+                continue
+            ch = t.bind_args(var_cls.lookup("__init__"), c).get("children")
+            alts = ctx.expand.expand_nodes(ch, f) if ch is not None else []
+            if alts and all(isinstance(a, ast.List) and not a.elts or (isinstance(a, ast.Call) and norm(a.func) == "list" and not a.args) for a in alts):
+                res.ok("C07.CHILD", {"fresh children list per entry": f.loc(c)})
+            else:
+                res.fail(Finding("C07.CHILD", f.qname, c, f.loc(c), "a table entry is created with a children list that is not its own (%s): children recorded for one value show up "
+                                 "under every value sharing the list, in this and in later snapshots" % [norm(a)[:40] for a in alts]))
+
     # ---------------- OPTIONAL
     checkers = [f for f in p.functions.values() if f.name == "check_id" and f.module.name.startswith("deep.processor")]
     nopt = 0
@@ -284,6 +320,8 @@ def run(ctx: Ctx, tier: str) -> Result:
         res.ok("C07.MERGE", {"merge_var_lookup": norm(upd[0])})
     else:
         res.fail(Finding("C07.MERGE", mv.qname, "<self._var_lookup.update(lookup)>", mv.loc(), "merge_var_lookup does not add the entries to the snapshot's table"))
+    from .common import borrow
+    borrow(ctx, res, tier, "c06", ("C06.TOTAL",), "C07.TOTAL", "a value that cannot be rendered is recorded with a placeholder: an aborted evaluation would leave ids without entries")
     return res
 
 
